@@ -447,6 +447,28 @@ func runOp(doc int, op string) string {
 		if len(cc.Chunks) > 1 {
 			b.WriteString(cc.Filter(func(c *rag.Chunk) bool { return c.Metadata.ChunkIndex%2 == 1 }).ToMarkdown())
 		}
+		// ... nor does asking it questions: every query that selects - a word of the last chunk (so the first
+		// ones do not match), pages, sections, element types, token bounds - and every statistic
+		if n := len(cc.Chunks); n > 0 {
+			word := ""
+			for _, w := range strings.Fields(cc.Chunks[n-1].Text) {
+				if len(w) > len(word) {
+					word = w
+				}
+			}
+			fmt.Fprintf(&b, "\nqueries: search=%d", cc.Search(word).Count())
+			lo, hi := cc.GetPageRange()
+			fmt.Fprintf(&b, " page=%d range=%d", cc.FilterByPage(hi).Count(), cc.FilterByPageRange(lo, hi).Count())
+			for _, sec := range cc.GetAllSections() {
+				fmt.Fprintf(&b, " section=%d", cc.FilterBySection(sec).Count())
+			}
+			fmt.Fprintf(&b, " paragraph=%d tables=%d lists=%d images=%d min=%d max=%d tokens=%d words=%d stats=%+v", cc.FilterByElementType("paragraph").Count(),
+				cc.FilterWithTables().Count(), cc.FilterWithLists().Count(), cc.FilterWithImages().Count(),
+				cc.FilterByMinTokens(cc.Chunks[n-1].Metadata.EstimatedTokens).Count(), cc.FilterByMaxTokens(cc.Chunks[n-1].Metadata.EstimatedTokens).Count(),
+				cc.GetTotalTokens(), cc.GetTotalWords(), cc.Statistics())
+			_ = cc.ToSlice()
+			_, _ = cc.First(), cc.Last()
+		}
 		j2, _ := cc.ToJSONL()
 		c2, _ := cc.ToCSV()
 		t2 := cc.ToMarkdownWithOptions(toc)
